@@ -328,6 +328,18 @@ func visit(n *node, full bool, cn counts) {
 	})
 }
 
+func wellFormed(s state) bool {
+	if len(s.Vals) == 0 {
+		return false
+	}
+	for _, v := range s.Vals {
+		if v.P <= 0 || v.A < 0 {
+			return false
+		}
+	}
+	return true
+}
+
 // expand executes every operation of the alphabet on n and hands accepted successors to child.
 func (e *explorer) expand(n *node, cn counts, forceCopyCheck bool, child func(c *node)) (copyFindings []finding) {
 	keyBefore := n.st.key()
@@ -342,6 +354,19 @@ func (e *explorer) expand(n *node, cn counts, forceCopyCheck bool, child func(c 
 			cn["steps_where_reference_rescaled"]++
 		}
 		if res.accepted && res.child != nil {
+			if !wellFormed(res.st) {
+				// a set with an empty membership, a non-positive power or a foreign address is outside the
+				// domain of the specification: report it (if the step oracle has not already) and stop there
+				if len(fs) == 0 {
+					recordAt([]finding{{"C12|oracle=member-well-formed", "an accepted operation produced a malformed set: " + res.st.String(), nil}}, n.depth, n.vec, func() vcase {
+						c := n.vcase("step")
+						c.Op = &op
+						return c
+					})
+				}
+				cn["malformed_successors_not_expanded"]++
+				return
+			}
 			child(&node{vs: res.child, st: res.st, parent: n, op: op, depth: n.depth + 1, vec: n.vec})
 		}
 	}
